@@ -147,6 +147,10 @@ pub fn build(cfg: &Cfg, shared: trv_core::inner::Shared) -> (Svc, Option<Arc<Rec
     if cfg.predicate {
         b = b.retry_on(|e: &InnerErr| e.kind == 0);
     }
+    // (odd attempt limits: a no-op listener is registered for every event type)
+    if cfg.max_attempts % 2 == 1 {
+        b = b.on_retry(|_, _| {}).on_success(|_| {}).on_error(|_| {}).on_budget_exhausted(|_| {}).on_ignored_error(|| {});
+    }
     let mut rec = None;
     let raw: Option<Arc<dyn RetryBudget>> = match cfg.budget {
         BudgetKind::None => None,
